@@ -19,7 +19,9 @@ import (
 	"berty.tech/go-ipfs-log/io/jsonable"
 	"github.com/ipfs/go-cid"
 	format "github.com/ipfs/go-ipld-format"
+	"github.com/ipfs/boxo/path"
 	coreiface "github.com/ipfs/kubo/core/coreiface"
+	"github.com/ipfs/kubo/core/coreiface/options"
 	"github.com/libp2p/go-libp2p/core/crypto"
 	pb "github.com/libp2p/go-libp2p/core/crypto/pb"
 )
@@ -48,6 +50,7 @@ type memAPI struct {
 	order      []string       // hashes in write order (write journal)
 	reads      []string       // hashes requested through Read (request journal)
 	fault      map[string]int // per-block fault kind
+	pin        *memPin
 	absentErr  error          // the error an absent block fails with (default: a plain "not found")
 	failWrites int            // the n-th write (1-based) fails; 0 = never
 	writes     int
@@ -461,6 +464,31 @@ type memDag struct {
 	// that other writers can run while a write is in flight
 	slow bool
 	mu   sync.Mutex
+}
+
+// memPin: a pin service that can be made to fail (the n-th Add, 1-based); pinned identifiers are recorded.
+type memPin struct {
+	coreiface.PinAPI
+	api      *memAPI
+	adds     int
+	failAdds map[int]bool
+	pinned   []string
+}
+
+func (p *memPin) Add(_ context.Context, pa path.Path, _ ...options.PinAddOption) error {
+	p.adds++
+	if p.failAdds[p.adds] {
+		return errors.New("pin: failed")
+	}
+	p.pinned = append(p.pinned, pa.String())
+	return nil
+}
+
+func (api *memAPI) Pin() coreiface.PinAPI {
+	if api.pin == nil {
+		api.pin = &memPin{api: api, failAdds: map[int]bool{}}
+	}
+	return api.pin
 }
 
 func (api *memAPI) Dag() coreiface.APIDagService {
